@@ -51,7 +51,11 @@ def run(C, R):
                     was = v[1]
                 if isinstance(k, tuple) and k[0] == 'bin' and k[1] in ('Ne', 'Eq') and k[2] == IS_SET:
                     pass
-            ws = [e for e in path.events if e['k'] == 'write' and e['loc'][0] == ('P', 'self')]
+            from common import effective as _eff
+            # (a store of the value the flag is known to hold - `mem::replace(&mut is_set, true)` on the set path - is
+            # not an effect)
+            ws = [e for e in path.events if e['k'] in ('write', 'replace') and e.get('loc') and e['loc'][0] == ('P', 'self')
+                  and _eff(E, path, e)]
             drains = [e for e in path.events if e['k'] == 'qop' and e['op'] in ('reverse_drain', 'drain')]
             if was == 1:
                 if ws or drains:
@@ -92,11 +96,15 @@ def run(C, R):
             effects = [e for e in path.events if e['k'] in ('write', 'qop', 'call', 'wake', 'take', 'update_waker',
                                                             'drop', 'lock')]
             if reset['path'] in F.alias_fns:
-                # the public method is the transition itself: taking / releasing the lock is its frame, not an effect
+                # the public method is the transition itself: taking / releasing the lock is its frame, not an effect -
+                # nor is the plumbing that gets it there (a private `with_state(closure)` helper, the closure call)
                 effects = [e for e in effects if not (
-                    e['k'] == 'lock' or (e['k'] == 'drop' and 'MutexGuard' in str(e.get('ty')))
+                    e['k'] == 'lock' or (e['k'] == 'drop' and ('MutexGuard' in str(e.get('ty')) or 'closure' in str(e.get('ty'))))
                     or (e['k'] == 'call' and (e.get('name') in ('deref', 'deref_mut', 'lock') or
-                                              'MutexGuard' in str(e.get('callee')))))]
+                                              'MutexGuard' in str(e.get('callee')) or
+                                              (e.get('mode') == 'inline' and not (F.fn(e['callee']) or {}).get('reachable')
+                                               and F.fn(e['callee']) is not None and e['callee'] not in
+                                               [m_['path'] for m_ in F.methods_of(STATE)]))))]
             good = (len(effects) == 1 and effects[0]['k'] == 'write' and loc_endswith(effects[0]['loc'], 'is_set')
                     and effects[0]['val'] == ('const', 0) and path.exit == 'return')
             if good:
